@@ -142,29 +142,36 @@ Definition satisfies_seq (t : strace) : bool :=
 
 (* ================= Part 2: schedules ================= *)
 
-(* One key. Values are version numbers: 0 is the value present before the run, the writer's i-th
-   Put writes i. Cache content for the key: None = not cached, Some n = version n cached. *)
-Inductive rpc := RIdle | RMissed | RGot (n : N).
+(* One key.  The writer runs a program of writes that all succeed: the i-th write leaves content
+   number i in the storage (content 0 is what was there before the run; None = no row).
+   Readers run Get / TTLGet.  Cache content for the key: None = not cached, Some None = cached as
+   "known missing", Some (Some v) = value v cached.  One step = one of the sections delimited by
+   the calls into the underlying storage and by the cache mutex. *)
+Inductive wop := WPut (v : N) | WIns (v : N) | WDel.      (* Put / InsertIfNotExists / CompareAndDelete *)
+Inductive rop := OpGet | OpTTLGet.
+Inductive rpc := RIdle | RMissed (o : rop) | RGot (o : rop) (e : option N).
+
+Definition wcontent (w : wop) : option N := match w with WPut v | WIns v => Some v | WDel => None end.
 
 Record sch := mkSch {
-  s_store : N;            (* version in the underlying storage *)
-  s_cache : option N;
-  s_wpc : bool;           (* writer is between its storage write and its cache update *)
-  s_wnext : N;            (* next version the writer will write *)
-  s_wleft : nat;          (* Puts left *)
-  s_completed : N;        (* version of the last Put that has returned *)
-  s_readers : list (rpc * nat)   (* per reader: pc, Gets left *)
+  s_store : option N;
+  s_cache : option (option N);
+  s_wpc : option wop;               (* the write whose storage step is done and whose cache step is not *)
+  s_wprog : list wop;               (* writes not yet started *)
+  s_completed : N;                  (* writes that have returned *)
+  s_started : N;                    (* writes whose storage step is done *)
+  s_hist : list (option N);         (* content after j storage steps, newest first (ghost) *)
+  s_readers : list (rpc * list rop)
 }.
 
 Inductive pid := PW | PR (i : nat).
 
-(* what a step lets the environment observe *)
 Inductive sobs :=
-| SNone                     (* parked at the next hook *)
-| SPutDone                  (* the writer's Put returned *)
-| SGetStart (c : N)         (* a Get starts: number of completed Puts at that instant *)
-| SGetHit (c : N) (v : N)   (* a Get started and returned from the cache within one step *)
-| SGetDone (v : N).         (* a Get returned *)
+| SNone
+| SWDone
+| SGetStart (c : N)
+| SGetHit (c : N) (r : option N)
+| SGetDone (r : option N).
 
 Fixpoint set_nth {T} (l : list T) (i : nat) (x : T) : list T :=
   match l, i with
@@ -173,43 +180,56 @@ Fixpoint set_nth {T} (l : list T) (i : nat) (x : T) : list T :=
   | y :: r, S j => y :: set_nth r j x
   end.
 
+Definition set_readers (s : sch) (rs : list (rpc * list rop)) : sch :=
+  mkSch (s_store s) (s_cache s) (s_wpc s) (s_wprog s) (s_completed s) (s_started s) (s_hist s) rs.
+
+Definition fill_if_absent (c : option (option N)) (e : option N) : option (option N) :=
+  match c with Some _ => c | None => Some e end.
+
+(* what the reader's last step does to the cache *)
+Definition reader_fill (o : rop) (got : option N) (c : option (option N)) : option (option N) :=
+  match o, got with
+  | OpGet, Some v => if cache_positive_fill_guarded then fill_if_absent c (Some v) else Some (Some v)
+  | OpGet, None => fill_if_absent c None
+  | OpTTLGet, Some _ => c                                   (* a found TTL row is not cached *)
+  | OpTTLGet, None => if cache_ttlget_negative_fill_guarded then fill_if_absent c None else Some None
+  end.
+
 Definition sch_step (s : sch) (p : pid) : option (sch * sobs) :=
   match p with
   | PW =>
-      if s_wpc s
-      then (* cache.Set + return *)
-        Some (mkSch (s_store s) (Some (s_store s)) false (s_wnext s) (s_wleft s) (s_store s) (s_readers s), SPutDone)
-      else
-        match s_wleft s with
-        | O => None
-        | S k => (* storage.Put *)
-            Some (mkSch (s_wnext s) (s_cache s) true (s_wnext s + 1)%N k (s_completed s) (s_readers s), SNone)
-        end
+      match s_wpc s with
+      | Some w =>
+          (* cache update + return *)
+          let c' := match w with WDel => None | _ => Some (wcontent w) end in
+          Some (mkSch (s_store s) c' None (s_wprog s) (s_started s) (s_started s) (s_hist s) (s_readers s), SWDone)
+      | None =>
+          match s_wprog s with
+          | [] => None
+          | w :: rest =>
+              Some (mkSch (wcontent w) (s_cache s) (Some w) rest (s_completed s) (s_started s + 1)%N
+                          (wcontent w :: s_hist s) (s_readers s), SNone)
+          end
+      end
   | PR i =>
       match nth_error (s_readers s) i with
       | None => None
-      | Some (RIdle, O) => None
-      | Some (RIdle, S k) =>
+      | Some (RIdle, []) => None
+      | Some (RIdle, o :: rest) =>
           match s_cache s with
-          | Some v => Some (mkSch (s_store s) (s_cache s) (s_wpc s) (s_wnext s) (s_wleft s) (s_completed s)
-                                  (set_nth (s_readers s) i (RIdle, k)), SGetHit (s_completed s) v)
-          | None => Some (mkSch (s_store s) (s_cache s) (s_wpc s) (s_wnext s) (s_wleft s) (s_completed s)
-                                (set_nth (s_readers s) i (RMissed, k)), SGetStart (s_completed s))
+          | Some e => Some (set_readers s (set_nth (s_readers s) i (RIdle, rest)), SGetHit (s_completed s) e)
+          | None => Some (set_readers s (set_nth (s_readers s) i (RMissed o, rest)), SGetStart (s_completed s))
           end
-      | Some (RMissed, k) =>
-          Some (mkSch (s_store s) (s_cache s) (s_wpc s) (s_wnext s) (s_wleft s) (s_completed s)
-                      (set_nth (s_readers s) i (RGot (s_store s), k)), SNone)
-      | Some (RGot v, k) =>
-          let c' := if cache_positive_fill_guarded
-                    then match s_cache s with Some _ => s_cache s | None => Some v end
-                    else Some v in
-          Some (mkSch (s_store s) c' (s_wpc s) (s_wnext s) (s_wleft s) (s_completed s)
-                      (set_nth (s_readers s) i (RIdle, k)), SGetDone v)
+      | Some (RMissed o, rest) =>
+          Some (set_readers s (set_nth (s_readers s) i (RGot o (s_store s), rest)), SNone)
+      | Some (RGot o e, rest) =>
+          Some (mkSch (s_store s) (reader_fill o e (s_cache s)) (s_wpc s) (s_wprog s) (s_completed s) (s_started s)
+                      (s_hist s) (set_nth (s_readers s) i (RIdle, rest)), SGetDone e)
       end
   end.
 
-Definition sch_init (puts : nat) (readers : list nat) : sch :=
-  mkSch 0 None false 1 puts 0 (map (fun g => (RIdle, g)) readers).
+Definition sch_init (init : option N) (prog : list wop) (readers : list (list rop)) : sch :=
+  mkSch init None None prog 0 0 [init] (map (fun g => (RIdle, g)) readers).
 
 Fixpoint sch_run (s : sch) (ps : list pid) : option (list sobs) :=
   match ps with
@@ -220,43 +240,66 @@ Fixpoint sch_run (s : sch) (ps : list pid) : option (list sobs) :=
               end
   end.
 
-Record ctrace := mkCTrace { ct_puts : nat; ct_readers : list nat; ct_sched : list pid; ct_obs : list sobs }.
+Record ctrace := mkCTrace { ct_init : option N; ct_prog : list wop; ct_readers : list (list rop);
+                            ct_sched : list pid; ct_obs : list sobs }.
+
+Definition on_eqb := option_eqb N.eqb.
 
 Definition sobs_eqb (a b : sobs) : bool :=
   match a, b with
-  | SNone, SNone | SPutDone, SPutDone => true
+  | SNone, SNone | SWDone, SWDone => true
   | SGetStart c, SGetStart c' => (c =? c')%N
-  | SGetHit c v, SGetHit c' v' => ((c =? c') && (v =? v'))%N
-  | SGetDone v, SGetDone v' => (v =? v')%N
+  | SGetHit c v, SGetHit c' v' => (c =? c')%N && on_eqb v v'
+  | SGetDone v, SGetDone v' => on_eqb v v'
   | _, _ => false
   end.
 
 Definition agrees_sched (t : ctrace) : bool :=
-  match sch_run (sch_init (ct_puts t) (ct_readers t)) (ct_sched t) with
+  match sch_run (sch_init (ct_init t) (ct_prog t) (ct_readers t)) (ct_sched t) with
   | Some obs => list_eqb sobs_eqb obs (ct_obs t)
   | None => false
   end.
 
-(* the property on the observed timeline alone: a Get that started when c Puts had completed
-   returns a version >= c.  `starts` remembers, per reader, the c of its Get in flight. *)
-Fixpoint no_stale (starts : list (nat * N)) (ps : list pid) (obs : list sobs) : bool :=
+(* ---- the property on the observed timeline alone ----
+   hist = contents so far (newest first; its length - 1 = number of storage steps of the writer).
+   A read that started when c writes had completed may return content j only for some j >= c
+   that exists when it returns. *)
+Definition content_at (hist : list (option N)) (j : N) : option (option N) :=
+  nth_error (rev hist) (N.to_nat j).
+
+Definition fresh_enough (hist : list (option N)) (c : N) (r : option N) : bool :=
+  existsb (fun j => (c <=? N.of_nat j)%N && match nth_error (rev hist) j with Some e => on_eqb e r | None => false end)
+          (seq 0 (length hist)).
+
+Fixpoint no_stale (hist : list (option N)) (prog : list wop) (wmid : bool) (starts : list (nat * N))
+         (ps : list pid) (obs : list sobs) : bool :=
   match ps, obs with
   | [], [] => true
   | p :: rp, o :: ro =>
       match p, o with
-      | PR i, SGetStart c => no_stale ((i, c) :: starts) rp ro
-      | PR i, SGetHit c v => (c <=? v)%N && no_stale starts rp ro
-      | PR i, SGetDone v =>
+      | PW, SNone =>
+          (* the writer's storage step: the next content exists from now on *)
+          match prog with
+          | w :: rest => no_stale (wcontent w :: hist) rest true starts rp ro
+          | [] => false
+          end
+      | PW, SWDone => no_stale hist prog false starts rp ro
+      | PR i, SGetStart c => no_stale hist prog wmid ((i, c) :: starts) rp ro
+      | PR i, SGetHit c r => fresh_enough hist c r && no_stale hist prog wmid starts rp ro
+      | PR i, SGetDone r =>
           match find (fun e => Nat.eqb (fst e) i) starts with
-          | Some (_, c) => (c <=? v)%N && no_stale (filter (fun e => negb (Nat.eqb (fst e) i)) starts) rp ro
+          | Some (_, c) => fresh_enough hist c r
+                           && no_stale hist prog wmid (filter (fun e => negb (Nat.eqb (fst e) i)) starts) rp ro
           | None => false
           end
-      | _, _ => no_stale starts rp ro
+      | PR i, SNone => no_stale hist prog wmid starts rp ro
+      | _, _ => false
       end
   | _, _ => false
   end.
 
-Definition satisfies_sched (t : ctrace) : bool := no_stale [] (ct_sched t) (ct_obs t).
+Definition satisfies_sched (t : ctrace) : bool :=
+  no_stale [ct_init t] (ct_prog t) false [] (ct_sched t) (ct_obs t).
 
 (* ================= one trace type for the driver ================= *)
 Inductive trace := TSeq (t : strace) | TSched (t : ctrace).
